@@ -18,7 +18,7 @@ import (
 const layoutMarkers = "VERIF_MARKER=QQmarkerQQmarkerQQ__1,QQmarkerQQmarkerQQ__2,QQmarkerQQmarkerQQ__3"
 
 func layoutDevKey(d []int) string {
-	names := []string{"build", "pkgdoc", "before", "after", "blankb", "blanka", "intfdoc", "body", "methods", "namelen", "size", "intfs", "ncomments", "imports"}
+	names := []string{"build", "pkgdoc", "before", "after", "blankb", "blanka", "intfdoc", "body", "methods", "namelen", "size", "intfs", "ncomments", "imports", "typesin", "longline"}
 	var out []string
 	for i, v := range d {
 		if v != layoutBase[i] {
@@ -162,7 +162,7 @@ func init() {
 		}
 		// documented notation mixes on a fixed layout: every well-formed notation set of F4/F5 that the reference deems well-formed
 		e.Rep.Bound("layout_deviations", maxDev)
-		e.Rep.Rule(fmt.Sprintf("layout alphabet of DESIGN §2.2 (14 dimensions, radices %v) around a trivially matchable struct pair: every layout within %d deviations of the README layout "+
+		e.Rep.Rule(fmt.Sprintf("layout alphabet of DESIGN §2.2 (16 dimensions, radices %v; incl. operand types declared in a sibling file named like another generator's output, a 70 000-byte source line, a package doc that is nothing but a go:generate directive, directive-looking lines inside raw strings and block comments) around a trivially matchable struct pair: every layout within %d deviations of the README layout "+
 			"plus the complete sub-product methods x name length x body-size class x in-body comment x interfaces x interface doc; oracle: exit 0, output parses, set of generated functions == methods of the marked interfaces, "+
 			"no marker text or converter interface left; non-trivial = accepted layout (each cell is a distinct rendered file)", layoutRadices, maxDev))
 		var sampled atomic.Int32
